@@ -121,7 +121,8 @@ def check_view(ck, view, tag=""):
         level, dterm, nl = P.norm(args[1]), P.norm(args[2]), P.norm(args[3])
         r = circ.range_expr(level[1]) if (isinstance(level, tuple) and level[0] == "elem") else None
         n_log = P.const_of(nl)
-        lvl_ok = (r is not None and P.const_of(r[0]) == 0 and P.const_of(r[1]) == max_depth and isinstance(r[1], tuple) and (r[1][2] or "").endswith("MAX_DEPTH")
+        # the level loop covers 0..MAX_DEPTH (by value: the leaf view carries no constant names)
+        lvl_ok = (r is not None and P.const_of(r[0]) == 0 and P.const_of(r[1]) == max_depth
                   and dterm == depth and n_log is not None and (1 << n_log) > max_depth)
     ck.require(lvl_ok, "TERM", tag + "walk/active-level", "is_active_level = is_const_less_than(level, depth, n_log) with level in 0..MAX_DEPTH(=%d) and 2^n_log > MAX_DEPTH" % max_depth,
                e.loc, T.show(act)[:300])
